@@ -268,30 +268,55 @@ def search(ctx):
             name, st["ok"], st["violation"], st["skipped"], st["harness"], st["t"]))
 
 
-def _deep_search(ctx, plugs):
-    """a proof obligation or tie broke: also look at the boards of the Tier-1 tie, which are too large to
-    enumerate - take some models of the really posted program (z3) and ask the rules about each of them"""
+def _deep_worker(q, names, tier, seed, runner):
     L = _lib()
-    m = ctx.model("C11")
-    for p in plugs:
-        if not getattr(p, "TIER1", None):
+    m = Runner(runner)
+    for p in L.plugins():
+        if p.NAME not in names or not getattr(p, "TIER1", None):
             continue
-        rng = random.Random("%s/%s/t1" % (ctx.seed, p.NAME))
-        for pb in list(p.tier1_problems(ctx.tier, rng))[:60]:
+        rng = random.Random("%s/%s/t1" % (seed, p.NAME))
+        for pb in list(p.tier1_problems(tier, rng))[:60]:
             r, insts = L.run_recorded(p, pb, "capture")
-            if r[0] == "err" or len(insts) != 1 or len(insts[0].variables) > 400:
+            if r[0] == "err" or len(insts) != 1 or len(insts[0].variables) > 120:
                 continue
             sv = insts[0]
             aids = [v.id for v in L.flat_vars(L.answer_arrays(p, r[1]))]
             tok = L.pb_tokens(p.encode(pb))
-            sols = L.all_key_solutions(sv, aids, 12)
-            ctx.prop_case("deep:" + p.NAME, tok)
+            sols = L.all_key_solutions(sv, aids, 4, timeout_ms=2000)
+            bad = None
             for s in sols:
                 ans = " ".join(str(int(v)) for v in s)
                 if m.call("R %s %s | %s" % (p.NAME, tok, ans)) == "0":
-                    ctx.violation(_key(p, pb, "deep"), "solve_%s: the solver admits a grid that breaks the rules" % p.NAME,
-                                  {"puzzle": p.NAME, "problem": pb, "admitted_but_breaking_rules": [list(map(int, s))]})
+                    bad = list(map(int, s))
                     break
+            q.put((p.NAME, pb, tok, bad))
+    q.put(None)
+
+
+def _deep_search(ctx, plugs):
+    """a proof obligation or tie broke: also look at the boards of the Tier-1 tie, which are too large to
+    enumerate - take some models of the really posted program (z3) and ask the rules about each of them.
+    Runs in a child process under a hard 60 s limit."""
+    runner = vlib.build_runner("C11")
+    mp = multiprocessing.get_context("fork")
+    q = mp.Queue()
+    pr = mp.Process(target=_deep_worker, args=(q, [p.NAME for p in plugs], ctx.tier, ctx.seed, runner))
+    pr.start()
+    byname = {p.NAME: p for p in plugs}
+    deadline = time.time() + 60
+    while time.time() < deadline:
+        try:
+            item = q.get(timeout=max(0.1, deadline - time.time()))
+        except Exception:  # noqa
+            break
+        if item is None:
+            break
+        name, pb, tok, bad = item
+        ctx.prop_case("deep:" + name, tok)
+        if bad is not None:
+            ctx.violation(_key(byname[name], pb, "deep"), "solve_%s: the solver admits a grid that breaks the rules" % name,
+                          {"puzzle": name, "problem": pb, "admitted_but_breaking_rules": [bad]})
+    pr.terminate()
 
 
 def broken_explained_by_known(b, seen_known):
